@@ -35,6 +35,7 @@ pub fn configs_c09(tier: Tier) -> Vec<Box<dyn Config>> {
     let q = tier == Tier::Quick;
     let p = vec![Probe::Iterators];
     let mut v = Vec::new();
+    v.push(Box::new(super::widebattery::WideBattery { tier, part: super::widebattery::Part::Iter }) as Box<dyn Config>);
     // HashSet and HashTable counterparts
     v.push(set_probe_cfg(Plan::Zero, if q { 8 } else { 11 }, tier));
     v.push(super::c06::tab(Plan::Zero, if q { 5 } else { 7 }, if q { 7 } else { 9 }, vec![crate::tablesut::TProbe::Iterators], false, tier, "-iterators"));
@@ -67,6 +68,7 @@ pub fn configs_c10(tier: Tier) -> Vec<Box<dyn Config>> {
     let sse2 = super::width() == 16;
     let q = tier == Tier::Quick;
     let mut pre: Vec<Box<dyn Config>> = Vec::new();
+    pre.push(Box::new(super::widebattery::WideBattery { tier, part: super::widebattery::Part::Remove }));
     // removal while a destructor or predicate panics: exactly the selected elements must be gone (details: C04)
     pre.push(super::c04::mk::<TKey, TVal>(Plan::Zero, if q { 4 } else { 6 }, vec![vec![]], None, tier, false, "-faults"));
     let p = vec![Probe::Removal { max_subset_len: if q { 8 } else { 11 } }];
